@@ -67,8 +67,10 @@ Lemma eq_step_inside attrs op np len a :
   In a (eq_step attrs op np len) -> inside np (np + len) a.
 Proof.
   unfold eq_step. rewrite in_flat_map. intros [x [_ H]].
-  destruct (inter x op (op + len)) as [[os oe]|] eqn:E; [|destruct H].
-  apply inter_spec in E. destruct H as [H|[]]. subst a. unfold inside. cbn. lia.
+  destruct (inter x op (op + len)) as [[os oe]|] eqn:E.
+  - apply inter_spec in E. destruct H as [H|[]]. subst a. unfold inside. cbn. lia.
+  - destruct ((a_start x =? a_end x) && (op <=? a_start x) && (a_start x <? op + len)) eqn:M; [|destruct H].
+    destruct H as [H|[]]. subst a. unfold inside. cbn. lia.
 Qed.
 
 Lemma insertions_bound segs : forall np r,
@@ -87,7 +89,7 @@ Qed.
 (* a mapping fits: what moves_fit says of one mapping *)
 Definition mv_fits (ins : list (N * N)) (n : N) (m : mv) : Prop :=
   exists is_ ie, nth_error ins (N.to_nat (m_ins m)) = Some (is_, ie) /\ ie <= n /\ is_ <= ie /\
-                 (m_s1 m <= m_s0 m \/ m_t0 m + (m_s1 m - m_s0 m) <= ie - is_).
+                 m_t1 m <= ie - is_.
 
 Lemma move_step_within attrs ins op m n l :
   mv_fits ins n m -> move_step attrs ins op m = Ok l -> Forall (within n) l.
@@ -97,7 +99,7 @@ Proof.
   apply Forall_forall. intros a Ha. apply in_flat_map in Ha. destruct Ha as [x [_ Ha]].
   destruct (inter x (op + m_s0 m) (op + m_s1 m)) as [[os oe]|] eqn:Ei; [|destruct Ha].
   apply inter_spec in Ei.
-  destruct (is_ + m_t0 m + (os - (op + m_s0 m)) <? is_ + m_t0 m + (os - (op + m_s0 m)) + (oe - os)); [|destruct Ha].
+  match type of Ha with In _ (if ?c then _ else _) => destruct c; [|destruct Ha] end.
   destruct Ha as [Ha|[]]. subst a. unfold within. cbn. lia.
 Qed.
 
@@ -151,26 +153,18 @@ Proof.
     + eapply IH; eauto.
 Qed.
 
-Lemma ins_step_inside attrs ms subst author ts op np ii pw last d l :
-  ins_step attrs ms subst author ts op np ii pw last d = Ok l ->
-  Forall (inside np (np + blen d)) l.
+Lemma ins_step_inside attrs ms subst author ts op np ii pw last d :
+  Forall (inside np (np + blen d)) (ins_step attrs ms subst author ts op np ii pw last d).
 Proof.
   unfold ins_step. destruct (ranges_for_ins ms ii) as [|r rs] eqn:Er.
   - assert (Hone : forall o, inside np (np + blen d)
        (match o with Some a => mkAttr np (np + blen d) (a_author a) (a_ts a) | None => mkAttr np (np + blen d) author ts end)).
     { intros [a|]; unfold inside; cbn; lia. }
-    destruct (mem 10 d).
-    { intros H; inversion H; subst. constructor; [apply (Hone None)|constructor]. }
-    destruct (ranges_intersect subst np (np + blen d)).
-    { intros H; inversion H; subst. constructor; [apply (Hone None)|constructor]. }
-    destruct (pw && data_is_ws d).
-    { destruct (find_attr_ins attrs op) as [f|]; [|discriminate].
-      intros H; inversion H; subst. constructor; [apply Hone|constructor]. }
-    destruct last as [a|].
-    { intros H; inversion H; subst. constructor; [apply (Hone (Some a))|constructor]. }
-    destruct (find_attr_ins attrs op) as [f|]; [|discriminate].
-    intros H; inversion H; subst. constructor; [apply Hone|constructor].
-  - intros H; inversion H; subst. apply Forall_forall. intros a Ha. eapply gaps_inside; eauto.
+    destruct (mem 10 d); [constructor; [apply (Hone None)|constructor]|].
+    destruct (ranges_intersect subst np (np + blen d)); [constructor; [apply (Hone None)|constructor]|].
+    destruct (pw && data_is_ws d); [constructor; [apply Hone|constructor]|].
+    destruct last as [a|]; (constructor; [|constructor]); [apply (Hone (Some a))|apply Hone].
+  - apply Forall_forall. intros a Ha. eapply gaps_inside; eauto.
 Qed.
 
 Lemma Forall_inside_within lo hi n l :
@@ -199,10 +193,9 @@ Proof.
       * eapply del_step_within; [exact Hf| |exact Ed]. lia.
       * eapply IH; eauto.
     + rewrite blen_app in Hn.
-      destruct (ins_step attrs ms subst author ts op np ii pw last d) as [outs|] eqn:Ed; [|discriminate].
       match type of H with match ?X with _ => _ end = _ => destruct X as [r|] eqn:E; [|discriminate] end.
       inversion H; subst. apply Forall_app. split.
-      * apply ins_step_inside in Ed. eapply Forall_inside_within; [|exact Ed]. lia.
+      * eapply Forall_inside_within; [|apply ins_step_inside]. lia.
       * eapply IH; eauto. lia.
 Qed.
 
@@ -217,15 +210,32 @@ Proof.
   apply nth_error_In in E. apply insertions_bound in E. cbn [fst snd] in E. lia.
 Qed.
 
-(* --- merge keeps the bound --- *)
-Lemma dedup_In l : forall a, In a (dedup l) -> In a l.
+(* the monitored contract moves_ok implies what the theorems use *)
+Lemma moves_ok_fit f : moves_ok f = true -> moves_fit f = true.
 Proof.
-  induction l as [|x t IH]; intros a H; cbn [dedup] in H; [destruct H|].
-  destruct t as [|y t'].
-  - exact H.
-  - destruct (attr_eqb x y).
-    + right. apply IH. exact H.
-    + destruct H as [H|H]; [left; auto|right; apply IH; exact H].
+  unfold moves_ok, moves_fit. intros H. rewrite forallb_forall in *. intros m Hm. specialize (H m Hm).
+  destruct (range_len (nth_error (deletions (f_segs f) 0) (N.to_nat (m_del m)))); [|discriminate].
+  destruct (range_len (nth_error (insertions (f_segs f) 0) (N.to_nat (m_ins m)))); [|discriminate]. lia.
+Qed.
+
+(* --- merge keeps the bound --- *)
+Lemma attr_eqb_eq a b : attr_eqb a b = true -> a = b.
+Proof.
+  destruct a as [s1 e1 u1 t1], b as [s2 e2 u2 t2]. unfold attr_eqb. cbn.
+  intros H. repeat (apply andb_true_iff in H; destruct H as [H ?]).
+  apply N.eqb_eq in H. apply str_eqb_eq in H1.
+  match goal with H2 : (e1 =? e2) = true |- _ => apply N.eqb_eq in H2 end.
+  match goal with H2 : (t1 =? t2) = true |- _ => apply N.eqb_eq in H2 end.
+  subst. reflexivity.
+Qed.
+
+Lemma dedup_In l : forall a, In a (dedup l) <-> In a l.
+Proof.
+  induction l as [|x t IH]; intros a; cbn [dedup]; [tauto|].
+  destruct t as [|y t']; [tauto|].
+  destruct (attr_eqb x y) eqn:E.
+  - rewrite IH. apply attr_eqb_eq in E. subst y. cbn [In]. tauto.
+  - cbn [In]. rewrite IH. cbn [In]. tauto.
 Qed.
 
 Lemma coalesce_within n : forall l last,
@@ -242,10 +252,10 @@ Qed.
 Lemma merge_within n l : Forall (within n) l -> Forall (within n) (merge l).
 Proof.
   intros H. unfold merge.
-  assert (Hd : Forall (within n) (dedup (sort4 l))).
-  { apply Forall_forall. intros a Ha. apply dedup_In in Ha. unfold sort4 in Ha.
+  assert (Hd : Forall (within n) (dedup (sort2 l))).
+  { apply Forall_forall. intros a Ha. rewrite dedup_In in Ha. unfold sort2 in Ha.
     rewrite sort_by_In in Ha. rewrite Forall_forall in H. auto. }
-  destruct (dedup (sort4 l)) as [|a t]; [constructor|].
+  destruct (dedup (sort2 l)) as [|a t]; [constructor|].
   inversion Hd; subst. apply coalesce_within; auto.
 Qed.
 
@@ -257,7 +267,7 @@ Proof.
   intros old new attrs author ts f out Hwf Hfit H.
   unfold wf_diff in Hwf. repeat (apply andb_true_iff in Hwf; destruct Hwf as [Hwf ?]).
   match goal with Hn : list_eqb (cat_new _) new = true |- _ => apply list_eqb_eq in Hn; rename Hn into Hnew end.
-  unfold update in H. destruct (transform f (sort4 attrs) author ts) as [l|] eqn:E; [|discriminate].
+  unfold update in H. destruct (transform f (sort2 attrs) author ts) as [l|] eqn:E; [|discriminate].
   inversion H; subst out. apply merge_within. unfold transform in E.
   eapply transform_go_within; [| |exact E].
   - rewrite <- Hnew. apply moves_fit_spec. exact Hfit.
@@ -606,51 +616,29 @@ Proof.
 Qed.
 
 (* ================================================================== C16_merge_preserves_coverage *)
-Lemma attr_eqb_eq a b : attr_eqb a b = true -> a = b.
-Proof.
-  destruct a as [s1 e1 u1 t1], b as [s2 e2 u2 t2]. unfold attr_eqb. cbn.
-  intros H. repeat (apply andb_true_iff in H; destruct H as [H ?]).
-  apply N.eqb_eq in H. apply str_eqb_eq in H1.
-  match goal with H2 : (e1 =? e2) = true |- _ => apply N.eqb_eq in H2 end.
-  match goal with H2 : (t1 =? t2) = true |- _ => apply N.eqb_eq in H2 end.
-  subst. reflexivity.
-Qed.
-
-Lemma dedup_In_rev l : forall a, In a l -> In a (dedup l).
-Proof.
-  induction l as [|x t IH]; intros a H; [destruct H|]. cbn [dedup].
-  destruct t as [|y t'].
-  - exact H.
-  - destruct (attr_eqb x y) eqn:E.
-    + apply attr_eqb_eq in E. subst y. apply IH. destruct H as [H|H]; [left; auto|exact H].
-    + destruct H as [H|H]; [left; auto|right; apply IH; exact H].
-Qed.
-
 Definition by_start (a b : attr) : Prop := a_start a <= a_start b.
 
 Lemma insert_sorted_start x l :
-  StronglySorted by_start l -> StronglySorted by_start (insert_by le4 x l).
+  StronglySorted by_start l -> StronglySorted by_start (insert_by le2 x l).
 Proof.
   induction l as [|y t IH]; intros Hs; cbn [insert_by].
   - constructor; constructor.
   - inversion Hs as [|? ? Ht Hy]; subst.
-    destruct (le4 x y) eqn:E.
+    destruct (le2 x y) eqn:E.
     + constructor; auto.
-      assert (Hxy : a_start x <= a_start y).
-      { unfold le4, cmp4 in E. destruct (N.compare_spec (a_start x) (a_start y)); try lia; try discriminate. }
+      assert (Hxy : a_start x <= a_start y) by (unfold le2 in E; lia).
       constructor; auto. eapply Forall_impl; [|exact Hy]. unfold by_start. intros; lia.
     + constructor; auto.
-      assert (Hyx : a_start y <= a_start x).
-      { unfold le4, cmp4 in E. destruct (N.compare_spec (a_start x) (a_start y)); try lia; try discriminate. }
+      assert (Hyx : a_start y <= a_start x) by (unfold le2 in E; lia).
       apply Forall_forall. intros z Hz.
-      apply (Permutation_in _ (insert_by_perm le4 x t)) in Hz. destruct Hz as [Hz|Hz].
+      apply (Permutation_in _ (insert_by_perm le2 x t)) in Hz. destruct Hz as [Hz|Hz].
       * subst z. exact Hyx.
       * rewrite Forall_forall in Hy. apply Hy. exact Hz.
 Qed.
 
-Lemma sort4_sorted l : StronglySorted by_start (sort4 l).
+Lemma sort2_sorted l : StronglySorted by_start (sort2 l).
 Proof.
-  unfold sort4. induction l as [|x t IH]; cbn [sort_by]; [constructor|].
+  unfold sort2. induction l as [|x t IH]; cbn [sort_by]; [constructor|].
   apply insert_sorted_start. exact IH.
 Qed.
 
@@ -661,7 +649,7 @@ Proof.
   destruct t as [|y t']; [constructor; constructor|].
   destruct (attr_eqb x y); [apply IH; exact Ht|].
   constructor; [apply IH; exact Ht|].
-  apply Forall_forall. intros z Hz. apply dedup_In in Hz. rewrite Forall_forall in Hx. auto.
+  apply Forall_forall. intros z Hz. rewrite dedup_In in Hz. rewrite Forall_forall in Hx. auto.
 Qed.
 
 Lemma covers_equiv l1 l2 : (forall a, In a l1 <-> In a l2) ->
@@ -703,13 +691,11 @@ Qed.
 Theorem merge_coverage : forall l p au ts, covers (merge l) p au ts <-> covers l p au ts.
 Proof.
   intros l p au ts. unfold merge.
-  assert (Hin : forall a, In a (dedup (sort4 l)) <-> In a l).
-  { intros a. split; intros H.
-    - apply dedup_In in H. unfold sort4 in H. rewrite sort_by_In in H. exact H.
-    - apply dedup_In_rev. unfold sort4. rewrite sort_by_In. exact H. }
-  pose proof (dedup_sorted _ (sort4_sorted l)) as Hs.
+  assert (Hin : forall a, In a (dedup (sort2 l)) <-> In a l).
+  { intros a. rewrite dedup_In. unfold sort2. apply sort_by_In. }
+  pose proof (dedup_sorted _ (sort2_sorted l)) as Hs.
   rewrite <- (covers_equiv _ _ Hin).
-  destruct (dedup (sort4 l)) as [|a t]; [tauto|].
+  destruct (dedup (sort2 l)) as [|a t]; [tauto|].
   inversion Hs; subst. apply coalesce_covers; auto.
 Qed.
 
@@ -726,8 +712,8 @@ Qed.
 Theorem merge_markers : forall l a, In a l -> a_start a = a_end a -> In a (merge l).
 Proof.
   intros l a Ha Hz. unfold merge.
-  assert (Hd : In a (dedup (sort4 l))) by (apply dedup_In_rev; unfold sort4; rewrite sort_by_In; exact Ha).
-  destruct (dedup (sort4 l)) as [|x t]; [destruct Hd|]. apply coalesce_markers; auto.
+  assert (Hd : In a (dedup (sort2 l))) by (rewrite dedup_In; unfold sort2; rewrite sort_by_In; exact Ha).
+  destruct (dedup (sort2 l)) as [|x t]; [destruct Hd|]. apply coalesce_markers; auto.
 Qed.
 
 (* ================================================================== C16_line_char_roundtrip *)
@@ -1224,10 +1210,9 @@ Proof.
       * replace (op + (blen d + blen (cat_old t))) with (op + blen d + blen (cat_old t)) by lia.
         replace (di + (1 + ndel t)) with (di + 1 + ndel t) by lia. exact E2.
       * subst r. rewrite app_assoc. reflexivity.
-    + destruct (ins_step attrs ms subst author ts op np ii pw last d) as [outs|] eqn:Ed; [|discriminate].
-      match type of H with match ?X with _ => _ end = _ => destruct X as [r|] eqn:E; [|discriminate] end.
+    + match type of H with match ?X with _ => _ end = _ => destruct X as [r|] eqn:E; [|discriminate] end.
       inversion H; subst l. apply IH in E. destruct E as [l1 [l2 [pw' [last' [E1 [E2 E3]]]]]].
-      exists (outs ++ l1), l2, pw', last'. rewrite E1. cbn [ndel nins app].
+      exists (ins_step attrs ms subst author ts op np ii pw last d ++ l1), l2, pw', last'. rewrite E1. cbn [ndel nins app].
       rewrite !blen_app. split; [reflexivity|]. split.
       * replace (np + (blen d + blen (cat_new t))) with (np + blen d + blen (cat_new t)) by lia.
         replace (ii + (1 + nins t)) with (ii + 1 + nins t) by lia. exact E2.
@@ -1250,7 +1235,7 @@ Proof.
   apply Forall_forall. intros a Ha. apply in_flat_map in Ha. destruct Ha as [x [_ Ha]].
   destruct (inter x (op + m_s0 m) (op + m_s1 m)) as [[os oe]|] eqn:Ei; [|destruct Ha].
   apply inter_spec in Ei.
-  destruct (is_ + m_t0 m + (os - (op + m_s0 m)) <? is_ + m_t0 m + (os - (op + m_s0 m)) + (oe - os)); [|destruct Ha].
+  match type of Ha with In _ (if ?c then _ else _) => destruct c; [|destruct Ha] end.
   destruct Ha as [Ha|[]]. subst a. right. right. exists is_, ie. split.
   - eapply nth_error_In; eauto.
   - cbn. lia.
@@ -1302,10 +1287,9 @@ Proof.
       * eapply del_step_src; eauto.
       * apply IH in E; auto.
     + rewrite blen_app.
-      destruct (ins_step attrs ms subst author ts op np ii pw last d) as [outs|] eqn:Ed; [|discriminate].
       match type of H with match ?X with _ => _ end = _ => destruct X as [r|] eqn:E; [|discriminate] end.
       inversion H; subst. apply Forall_app. split.
-      * apply ins_step_inside in Ed. eapply Forall_impl; [|exact Ed]. intros a Ha. right. left.
+      * eapply Forall_impl; [|apply ins_step_inside]. intros a Ha. right. left.
         unfold inside in Ha. lia.
       * apply IH in E; auto. eapply Forall_impl; [|exact E]. intros a. apply src_ok_widen; lia.
 Qed.
@@ -1323,9 +1307,11 @@ Lemma eq_step_covers attrs op np len k au ts : k < len ->
 Proof.
   intros Hk. unfold covers, eq_step. split.
   - intros [a [Ha [A [B [C D]]]]]. apply in_flat_map in Ha. destruct Ha as [x [Hx Ha]].
-    destruct (inter x op (op + len)) as [[os oe]|] eqn:E; [|destruct Ha].
-    apply inter_spec in E. destruct Ha as [Ha|[]]. subst a. cbn in *.
-    exists x. repeat split; auto; lia.
+    destruct (inter x op (op + len)) as [[os oe]|] eqn:E.
+    + apply inter_spec in E. destruct Ha as [Ha|[]]. subst a. cbn in *.
+      exists x. repeat split; auto; lia.
+    + destruct ((a_start x =? a_end x) && (op <=? a_start x) && (a_start x <? op + len)); [|destruct Ha].
+      destruct Ha as [Ha|[]]. subst a. cbn in *. lia.
   - intros [x [Hx [A [B [C D]]]]].
     exists (mkAttr (np + (N.max (a_start x) op - op))
                    (np + (N.max (a_start x) op - op) + (N.min (a_end x) (op + len) - N.max (a_start x) op))
@@ -1350,7 +1336,7 @@ Theorem equal_keeps : forall attrs author ts f out pre d post,
     (covers out (blen (cat_new pre) + k) au t <-> covers attrs (blen (cat_old pre) + k) au t).
 Proof.
   intros attrs author ts f out pre d post Hfit Hsegs H k au t Hk.
-  unfold update in H. destruct (transform f (sort4 attrs) author ts) as [l|] eqn:E; [|discriminate].
+  unfold update in H. destruct (transform f (sort2 attrs) author ts) as [l|] eqn:E; [|discriminate].
   inversion H; subst out. rewrite merge_coverage.
   unfold transform in E. pose proof (moves_fit_spec f Hfit) as Hmf.
   set (ins := insertions (f_segs f) 0) in *. set (n := blen (cat_new (f_segs f))) in *.
@@ -1379,8 +1365,8 @@ Proof.
   { apply (src_ok_misses npE (npE + blen d)); try lia.
     eapply Forall_impl; [|exact E4]. intros a [Ha|[Ha|[is_ [ie [Hi Ha]]]]]; [left; auto|right; right; lia|].
     apply Hins in Hi. destruct Hi; [right; left|right; right]; lia. }
-  rewrite (eq_step_covers (sort4 attrs) opE npE (blen d) k au t Hk).
-  rewrite (covers_equiv (sort4 attrs) attrs (fun a => sort_by_In le4 attrs a)). tauto.
+  rewrite (eq_step_covers (sort2 attrs) opE npE (blen d) k au t Hk).
+  rewrite (covers_equiv (sort2 attrs) attrs (fun a => sort_by_In le2 attrs a)). tauto.
 Qed.
 
 (* ================================================================== C16_new_is_authors *)
@@ -1431,21 +1417,20 @@ Proof.
   congruence.
 Qed.
 
-Lemma ins_step_covers attrs ms subst author ts op np ii pw last d outs k :
-  ins_step attrs ms subst author ts op np ii pw last d = Ok outs ->
+Lemma ins_step_covers attrs ms subst author ts op np ii pw last d k :
   k < blen d -> in_target ms ii k = false ->
   (has_targets ms ii = true \/ mem 10 d = true \/ ranges_intersect subst np (np + blen d) = true) ->
-  covers outs (np + k) author ts.
+  covers (ins_step attrs ms subst author ts op np ii pw last d) (np + k) author ts.
 Proof.
-  intros H Hk Ht Hc. unfold ins_step in H. unfold has_targets in Hc.
+  intros Hk Ht Hc. unfold ins_step. unfold has_targets in Hc.
   pose proof (in_target_false ms ii k Ht) as Hnt.
   destruct (ranges_for_ins ms ii) as [|r0 rs] eqn:Er.
-  - destruct Hc as [Hc|[Hc|Hc]]; [discriminate| |].
-    + rewrite Hc in H. inversion H; subst.
-      exists (mkAttr np (np + blen d) author ts). split; [left; reflexivity|cbn; repeat split; auto; lia].
-    + destruct (mem 10 d); rewrite ?Hc in H; inversion H; subst;
-        exists (mkAttr np (np + blen d) author ts); (split; [left; reflexivity|cbn; repeat split; auto; lia]).
-  - inversion H; subst. apply gaps_cover; auto; try lia.
+  - assert (Hcur : covers [mkAttr np (np + blen d) author ts] (np + k) author ts).
+    { exists (mkAttr np (np + blen d) author ts). split; [left; reflexivity|cbn; repeat split; auto; lia]. }
+    destruct Hc as [Hc|[Hc|Hc]]; [discriminate| |].
+    + rewrite Hc. exact Hcur.
+    + destruct (mem 10 d); rewrite ?Hc; exact Hcur.
+  - apply gaps_cover; auto; try lia.
     intros [s e] Hr [A B]. cbn [fst snd] in *. unfold merged_targets in Hr.
     destruct (merged_in _ None s e Hr k A B) as [[]|[r [Hr2 R]]].
     rewrite sort_by_In in Hr2. apply (Hnt r Hr2). lia.
@@ -1461,66 +1446,19 @@ Theorem new_is_authors : forall attrs author ts f out pre d post,
     covers out (blen (cat_new pre) + k) author ts.
 Proof.
   intros attrs author ts f out pre d post Hsegs H k Hk Ht Hc.
-  unfold update in H. destruct (transform f (sort4 attrs) author ts) as [l|] eqn:E; [|discriminate].
+  unfold update in H. destruct (transform f (sort2 attrs) author ts) as [l|] eqn:E; [|discriminate].
   inversion H; subst out. rewrite merge_coverage.
   unfold transform in E. rewrite Hsegs in E at 1. apply transform_go_app in E.
   destruct E as [l1 [l2 [pw' [last' [E1 [E2 E3]]]]]].
   replace (0 + blen (cat_new pre)) with (blen (cat_new pre)) in E2 by lia.
   replace (0 + nins pre) with (nins pre) in E2 by lia.
   cbn [transform_go] in E2.
-  match type of E2 with match ?X with _ => _ end = _ => destruct X as [outs|] eqn:E3'; [|discriminate] end.
   match type of E2 with match ?X with _ => _ end = _ => destruct X as [r|] eqn:E4; [|discriminate] end.
   inversion E2; subst l2. subst l. rewrite !covers_app. right. left.
-  eapply ins_step_covers; eauto.
+  apply ins_step_covers; auto.
 Qed.
 
 (* ================================================================== C16_update_total *)
-Definition ordered (a : attr) : Prop := a_start a <= a_end a.
-
-Lemma best_overlap_total : forall l p best,
-  Forall ordered l -> (forall b, best = Some b -> ordered b) -> best_overlap l p best <> Panic.
-Proof.
-  induction l as [|a t IH]; intros p best Hf Hb; cbn [best_overlap]; [congruence|].
-  inversion Hf as [|? ? Ha Ht]; subst.
-  destruct (p <? a_start a); [congruence|].
-  destruct best as [b|].
-  - pose proof (Hb b eq_refl) as Hob. unfold ordered in *.
-    destruct (a_ts b <? a_ts a).
-    + apply IH; auto. intros b0. destruct (overlaps a p (p + 1) && true); intros Hx; inversion Hx; subst; auto.
-    + destruct (a_ts a =? a_ts b).
-      * replace ((a_end a <? a_start a) || (a_end b <? a_start b)) with false by lia.
-        apply IH; auto. intros b0.
-        destruct (overlaps a p (p + 1) && (a_end b - a_start b <? a_end a - a_start a)); intros Hx; inversion Hx; subst; auto.
-      * apply IH; auto. intros b0. destruct (overlaps a p (p + 1) && false); intros Hx; inversion Hx; subst; auto.
-  - apply IH; auto. intros b0. destruct (overlaps a p (p + 1) && true); intros Hx; inversion Hx; subst; auto.
-Qed.
-
-Lemma split_cursor_rest : forall l p before, Forall ordered l -> Forall ordered (snd (split_cursor l p before)).
-Proof.
-  induction l as [|a t IH]; intros p before Hf; cbn [split_cursor]; [constructor|].
-  inversion Hf; subst. destruct (a_end a <=? p); [apply IH; auto|exact Hf].
-Qed.
-
-Lemma find_attr_ins_total l p : Forall ordered l -> find_attr_ins l p <> Panic.
-Proof.
-  intros Hf. unfold find_attr_ins. destruct l as [|a0 t0]; [congruence|].
-  pose proof (split_cursor_rest (a0 :: t0) p None Hf) as Hr.
-  destruct (split_cursor (a0 :: t0) p None) as [before rest]. cbn [snd] in Hr.
-  pose proof (best_overlap_total rest p None Hr ltac:(congruence)) as Hb.
-  destruct (best_overlap rest p None) as [[b|]|]; congruence.
-Qed.
-
-Lemma ins_step_total attrs ms subst author ts op np ii pw last d :
-  Forall ordered attrs -> ins_step attrs ms subst author ts op np ii pw last d <> Panic.
-Proof.
-  intros Hf. unfold ins_step. destruct (ranges_for_ins ms ii); [|congruence].
-  pose proof (find_attr_ins_total attrs op Hf) as Hfa.
-  destruct (mem 10 d); [congruence|]. destruct (ranges_intersect subst np (np + blen d)); [congruence|].
-  destruct (pw && data_is_ws d).
-  - destruct (find_attr_ins attrs op); congruence.
-  - destruct last; [congruence|]. destruct (find_attr_ins attrs op); congruence.
-Qed.
-
 Lemma move_steps_total attrs ins op n ms :
   Forall (mv_fits ins n) ms -> move_steps attrs ins op ms <> Panic.
 Proof.
@@ -1543,30 +1481,27 @@ Proof.
 Qed.
 
 Lemma transform_go_total attrs ins ms subst author ts n : forall segs op np di ii pw last,
-  Forall (mv_fits ins n) ms -> Forall ordered attrs ->
+  Forall (mv_fits ins n) ms ->
   transform_go segs attrs ins ms subst author ts op np di ii pw last <> Panic.
 Proof.
-  induction segs as [|[o d] t IH]; intros op np di ii pw last Hf Ho; cbn [transform_go]; [congruence|].
+  induction segs as [|[o d] t IH]; intros op np di ii pw last Hf; cbn [transform_go]; [congruence|].
   destruct o.
   - match goal with |- match ?X with _ => _ end <> _ => assert (Hx : X <> Panic) by (apply IH; auto); destruct X; congruence end.
   - pose proof (del_step_total attrs ins ms author ts op np di d n Hf) as Hd.
     destruct (del_step attrs ins ms author ts op np di d); [|congruence].
     match goal with |- match ?X with _ => _ end <> _ => assert (Hx : X <> Panic) by (apply IH; auto); destruct X; congruence end.
-  - pose proof (ins_step_total attrs ms subst author ts op np ii pw last d Ho) as Hd.
-    destruct (ins_step attrs ms subst author ts op np ii pw last d); [|congruence].
-    match goal with |- match ?X with _ => _ end <> _ => assert (Hx : X <> Panic) by (apply IH; auto); destruct X; congruence end.
+  - match goal with |- match ?X with _ => _ end <> _ => assert (Hx : X <> Panic) by (apply IH; auto); destruct X; congruence end.
 Qed.
 
+(* for ANY priors (out of range, zero-length, inverted): the only panic left in the bookkeeping is
+   a move mapping naming an insertion that does not exist *)
 Theorem update_total : forall attrs author ts f,
-  moves_fit f = true -> forallb attr_ordered attrs = true -> update attrs author ts f <> Panic.
+  moves_fit f = true -> update attrs author ts f <> Panic.
 Proof.
-  intros attrs author ts f Hfit Ho. unfold update.
-  assert (Ht : transform f (sort4 attrs) author ts <> Panic).
-  { unfold transform. eapply transform_go_total.
-    - apply moves_fit_spec. exact Hfit.
-    - apply Forall_forall. intros a Ha. unfold sort4 in Ha. rewrite sort_by_In in Ha.
-      rewrite forallb_forall in Ho. apply Ho in Ha. unfold attr_ordered in Ha. unfold ordered. lia. }
-  destruct (transform f (sort4 attrs) author ts); congruence.
+  intros attrs author ts f Hfit. unfold update.
+  assert (Ht : transform f (sort2 attrs) author ts <> Panic).
+  { unfold transform. eapply transform_go_total. apply moves_fit_spec. exact Hfit. }
+  destruct (transform f (sort2 attrs) author ts); congruence.
 Qed.
 
 (* ================================================================== what wf_diff says *)
@@ -1581,26 +1516,17 @@ Proof.
   match goal with Hf : forallb _ (f_subst f) = true |- _ => rewrite forallb_forall in Hf; apply Hf in Hr end. lia.
 Qed.
 
-(* ================================================================== witnesses (facts taken from real runs) *)
-(* wK1: old='    aaa\n    bbb\n    ccc\nX\nY\nZ\n' new='X\nY\nZ\naaa\nbbb\nccc\n' attrs=[(0, 24, 'ai_1', 5)] author='ai_9' ts=100 *)
-Definition wK1_old : list N := [32; 32; 32; 32; 97; 97; 97; 10; 32; 32; 32; 32; 98; 98; 98; 10; 32; 32; 32; 32; 99; 99; 99; 10; 88; 10; 89; 10; 90; 10].
-Definition wK1_new : list N := [88; 10; 89; 10; 90; 10; 97; 97; 97; 10; 98; 98; 98; 10; 99; 99; 99; 10].
-Definition wK1_attrs : list attr := [mkAttr 0 24 [97; 105; 95; 49] 5].
-Definition wK1_author : list N := [97; 105; 95; 57].
-Definition wK1_facts : facts := mkFacts
-  [(DDel, [32; 32; 32; 32]); (DDel, [97; 97; 97; 10; 32; 32; 32; 32; 98; 98; 98; 10; 32; 32; 32; 32; 99; 99; 99]); (DDel, [10]); (DEq, [88; 10; 89; 10; 90; 10]); (DIns, [97; 97; 97; 10; 98; 98; 98; 10; 99; 99; 99]); (DIns, [10])]
-  [(6, 17)]
-  [mkMv 1 0 0 19 0 11].
-
-(* wK1b: old='    aaa\n    bbb\n    ccc\nX\nY\nZ\nW\n' new='X\nY\nZ\naaa\nbbb\nccc\nW\n' attrs=[(0, 24, 'ai_1', 5)] author='ai_9' ts=100 *)
+(* ================================================================== regression witnesses (facts and outputs taken from real runs) *)
+(* wK1b: old='    aaa\n    bbb\n    ccc\nX\nY\nZ\nW\n' new='X\nY\nZ\naaa\nbbb\nccc\nW\n' attrs=[(0, 8, 'ai_1', 5), (8, 16, 'ai_2', 6), (16, 24, 'ai_1', 7)] author='ai_9' ts=100 *)
 Definition wK1b_old : list N := [32; 32; 32; 32; 97; 97; 97; 10; 32; 32; 32; 32; 98; 98; 98; 10; 32; 32; 32; 32; 99; 99; 99; 10; 88; 10; 89; 10; 90; 10; 87; 10].
 Definition wK1b_new : list N := [88; 10; 89; 10; 90; 10; 97; 97; 97; 10; 98; 98; 98; 10; 99; 99; 99; 10; 87; 10].
-Definition wK1b_attrs : list attr := [mkAttr 0 24 [97; 105; 95; 49] 5].
+Definition wK1b_attrs : list attr := [mkAttr 0 8 [97; 105; 95; 49] 5; mkAttr 8 16 [97; 105; 95; 50] 6; mkAttr 16 24 [97; 105; 95; 49] 7].
 Definition wK1b_author : list N := [97; 105; 95; 57].
 Definition wK1b_facts : facts := mkFacts
   [(DDel, [32; 32; 32; 32]); (DDel, [97; 97; 97; 10; 32; 32; 32; 32; 98; 98; 98; 10; 32; 32; 32; 32; 99; 99; 99]); (DDel, [10]); (DEq, [88; 10; 89; 10; 90; 10]); (DIns, [97; 97; 97; 10; 98; 98; 98; 10; 99; 99; 99]); (DIns, [10]); (DEq, [87; 10])]
   [(6, 17)]
-  [mkMv 1 0 0 19 0 11].
+  [mkMv 1 0 0 3 0 3; mkMv 1 0 8 11 4 7; mkMv 1 0 16 19 8 11].
+Definition wK1b_out : list attr := [mkAttr 6 9 [97; 105; 95; 49] 5; mkAttr 9 10 [97; 105; 95; 57] 100; mkAttr 10 13 [97; 105; 95; 50] 6; mkAttr 13 14 [97; 105; 95; 57] 100; mkAttr 14 17 [97; 105; 95; 49] 7; mkAttr 17 18 [97; 105; 95; 57] 100].
 
 (* wK4: old='ab cd' new='ab  cd' attrs=[(0, 5, 'ai_1', 5), (3, 2, 'ai_1', 5)] author='ai_9' ts=100 *)
 Definition wK4_old : list N := [97; 98; 32; 99; 100].
@@ -1611,6 +1537,7 @@ Definition wK4_facts : facts := mkFacts
   [(DEq, [97; 98]); (DDel, [32]); (DIns, [32; 32]); (DEq, [99; 100])]
   []
   [].
+Definition wK4_out : list attr := [mkAttr 0 6 [97; 105; 95; 49] 5].
 
 (* wK2: old='a\n' new='a\n' attrs=[(0, 2, 'zed', 5), (0, 2, 'amy', 5)] author='ai_9' ts=100 *)
 Definition wK2_old : list N := [97; 10].
@@ -1621,6 +1548,18 @@ Definition wK2_facts : facts := mkFacts
   [(DEq, [97; 10])]
   []
   [].
+Definition wK2_out : list attr := [mkAttr 0 2 [122; 101; 100] 5; mkAttr 0 2 [97; 109; 121] 5].
+
+(* wK2b: old='xx\nlet value = compute(alpha, beta);\nyy\n' new='xx\nlet value = compute(alpha, beta);\nyy\n' attrs=[(4, 36, 'ai_1', 39), (10, 14, 'ai_2', 26), (10, 14, 'ai_1', 36), (22, 36, 'human', 47)] author='ai_9' ts=100 *)
+Definition wK2b_old : list N := [120; 120; 10; 108; 101; 116; 32; 118; 97; 108; 117; 101; 32; 61; 32; 99; 111; 109; 112; 117; 116; 101; 40; 97; 108; 112; 104; 97; 44; 32; 98; 101; 116; 97; 41; 59; 10; 121; 121; 10].
+Definition wK2b_new : list N := [120; 120; 10; 108; 101; 116; 32; 118; 97; 108; 117; 101; 32; 61; 32; 99; 111; 109; 112; 117; 116; 101; 40; 97; 108; 112; 104; 97; 44; 32; 98; 101; 116; 97; 41; 59; 10; 121; 121; 10].
+Definition wK2b_attrs : list attr := [mkAttr 4 36 [97; 105; 95; 49] 39; mkAttr 10 14 [97; 105; 95; 50] 26; mkAttr 10 14 [97; 105; 95; 49] 36; mkAttr 22 36 [104; 117; 109; 97; 110] 47].
+Definition wK2b_author : list N := [97; 105; 95; 57].
+Definition wK2b_facts : facts := mkFacts
+  [(DEq, [120; 120; 10; 108; 101; 116; 32; 118; 97; 108; 117; 101; 32; 61; 32; 99; 111; 109; 112; 117; 116; 101; 40; 97; 108; 112; 104; 97; 44; 32; 98; 101; 116; 97; 41; 59; 10; 121; 121; 10])]
+  []
+  [].
+Definition wK2b_out : list attr := [mkAttr 4 36 [97; 105; 95; 49] 39; mkAttr 10 14 [97; 105; 95; 50] 26; mkAttr 10 14 [97; 105; 95; 49] 36; mkAttr 22 36 [104; 117; 109; 97; 110] 47].
 
 (* wK3: old='abc\n' new='abc\n' attrs=[(0, 4, 'human', 1), (2, 2, 'ai_1', 9)] author='ai_9' ts=100 *)
 Definition wK3_old : list N := [97; 98; 99; 10].
@@ -1631,6 +1570,18 @@ Definition wK3_facts : facts := mkFacts
   [(DEq, [97; 98; 99; 10])]
   []
   [].
+Definition wK3_out : list attr := [mkAttr 0 4 [104; 117; 109; 97; 110] 1; mkAttr 2 2 [97; 105; 95; 49] 9].
+
+(* wK3b: old='abc\nxyz\n' new='Q\nabc\nxyz\n' attrs=[(0, 8, 'human', 1), (6, 6, 'ai_2', 9)] author='ai_9' ts=100 *)
+Definition wK3b_old : list N := [97; 98; 99; 10; 120; 121; 122; 10].
+Definition wK3b_new : list N := [81; 10; 97; 98; 99; 10; 120; 121; 122; 10].
+Definition wK3b_attrs : list attr := [mkAttr 0 8 [104; 117; 109; 97; 110] 1; mkAttr 6 6 [97; 105; 95; 50] 9].
+Definition wK3b_author : list N := [97; 105; 95; 57].
+Definition wK3b_facts : facts := mkFacts
+  [(DIns, [81]); (DIns, [10]); (DEq, [97; 98; 99; 10; 120; 121; 122; 10])]
+  [(0, 1)]
+  [].
+Definition wK3b_out : list attr := [mkAttr 0 2 [97; 105; 95; 57] 100; mkAttr 2 10 [104; 117; 109; 97; 110] 1; mkAttr 8 8 [97; 105; 95; 50] 9].
 
 (* wOK: old='aaa\nbbb\nccc\nX\nY\nZ\n' new='X\nY\nZ\naaa\nbbb\nccc\nnew é\n' attrs=[(0, 12, 'ai_1', 5), (12, 18, 'human', 3)] author='ai_9' ts=100 *)
 Definition wOK_old : list N := [97; 97; 97; 10; 98; 98; 98; 10; 99; 99; 99; 10; 88; 10; 89; 10; 90; 10].
@@ -1641,6 +1592,7 @@ Definition wOK_facts : facts := mkFacts
   [(DDel, [97; 97; 97; 10; 98; 98; 98; 10; 99; 99; 99]); (DDel, [10]); (DEq, [88; 10; 89; 10; 90; 10]); (DIns, [97; 97; 97; 10; 98; 98; 98; 10; 99; 99; 99; 10; 110; 101; 119; 32; 195; 169]); (DIns, [10])]
   [(6, 24)]
   [mkMv 0 0 0 11 0 12].
+Definition wOK_out : list attr := [mkAttr 0 6 [104; 117; 109; 97; 110] 3; mkAttr 6 17 [97; 105; 95; 49] 5; mkAttr 18 25 [97; 105; 95; 57] 100].
 
 Definition res_lines_eqb (a b : res (list lattr)) : bool :=
   match a, b with
@@ -1659,67 +1611,38 @@ Definition res_lines_eqb (a b : res (list lattr)) : bool :=
 Definition update_lines (new : list N) (attrs : list attr) (author : list N) (ts : N) (f : facts) : res (list lattr) :=
   match update attrs author ts f with Ok l => to_lines l new | Panic => Panic end.
 
-(* K1: a block moved with its indentation stripped; the contract wf_diff + moves_ok holds, moves_fit does not *)
-Lemma bounded_refuted :
-  exists old new attrs author ts f out,
-    wf_diff old new f = true /\ moves_ok f = true /\ forallb attr_ordered attrs = true /\
-    valid_utf8 old = true /\ valid_utf8 new = true /\
-    update attrs author ts f = Ok out /\ exists a, In a out /\ blen new < a_end a.
-Proof.
-  exists wK1_old, wK1_new, wK1_attrs, wK1_author, 100, wK1_facts.
-  eexists. repeat (split; [vm_compute; reflexivity|]).
-  exists (mkAttr 6 25 [97; 105; 95; 49] 5). split; [left; reflexivity|vm_compute; reflexivity].
-Qed.
+(* a block moved with its indentation stripped (formerly class C16-K1): one mapping per line, every
+   line keeps its own author, nothing leaves the new text, the unchanged last line stays unattributed *)
+Lemma regression_moved_block :
+  wf_diff wK1b_old wK1b_new wK1b_facts = true /\ moves_ok wK1b_facts = true /\
+  update wK1b_attrs wK1b_author 100 wK1b_facts = Ok wK1b_out /\
+  forallb (fun a => a_end a <=? blen wK1b_new) wK1b_out = true /\
+  res_lines_eqb (to_lines wK1b_out wK1b_new)
+    (Ok [mkLattr 4 4 [97; 105; 95; 49] None; mkLattr 5 5 [97; 105; 95; 50] None; mkLattr 6 6 [97; 105; 95; 49] None]) = true.
+Proof. repeat split; vm_compute; reflexivity. Qed.
 
-(* K1, second half: the overrun lands on unchanged text, whose author set changes *)
-Lemma equal_keeps_refuted :
-  exists old new attrs author ts f out pre d post,
-    wf_diff old new f = true /\ moves_ok f = true /\ f_segs f = pre ++ (DEq, d) :: post /\
-    update attrs author ts f = Ok out /\
-    exists k au t, k < blen d /\ covers out (blen (cat_new pre) + k) au t /\
-                   ~ covers attrs (blen (cat_old pre) + k) au t.
-Proof.
-  exists wK1b_old, wK1b_new, wK1b_attrs, wK1b_author, 100, wK1b_facts.
-  eexists. exists (firstn 6 (f_segs wK1b_facts)), [87; 10], [].
-  split; [vm_compute; reflexivity|]. split; [vm_compute; reflexivity|]. split; [reflexivity|].
-  split; [vm_compute; reflexivity|].
-  exists 0, [97; 105; 95; 49], 5. split; [vm_compute; reflexivity|]. split.
-  - exists (mkAttr 6 25 [97; 105; 95; 49] 5). split; [left; reflexivity|].
-    cbn [a_author a_ts a_start a_end]. repeat split; vm_compute; congruence.
-  - intros [a [Ha [_ [_ [C D]]]]]. destruct Ha as [Ha|[]]. subst a. vm_compute in D. discriminate D.
-Qed.
+(* a prior with start > end (formerly class C16-K4) *)
+Lemma regression_inverted_prior :
+  forallb attr_ordered wK4_attrs = false /\ update wK4_attrs wK4_author 100 wK4_facts = Ok wK4_out.
+Proof. split; vm_compute; reflexivity. Qed.
 
-(* K4: a prior with start > end makes `attr.end - attr.start` underflow (debug build) *)
-Lemma update_inverted_panics :
-  exists old new attrs author ts f,
-    wf_diff old new f = true /\ moves_ok f = true /\ moves_fit f = true /\
-    update attrs author ts f = Panic.
-Proof.
-  exists wK4_old, wK4_new, wK4_attrs, wK4_author, 100, wK4_facts.
-  repeat split; vm_compute; reflexivity.
-Qed.
+(* same range, different (author, ts) (formerly class C16-K2): an identical text returns the priors
+   in their order, so the tie winner and the overrode field stay *)
+Lemma regression_tie :
+  update wK2_attrs wK2_author 100 wK2_facts = Ok wK2_attrs /\
+  res_lines_eqb (update_lines wK2_old wK2_attrs wK2_author 100 wK2_facts) (to_lines wK2_attrs wK2_old) = true /\
+  update wK2b_attrs wK2b_author 100 wK2b_facts = Ok wK2b_attrs /\
+  res_lines_eqb (update_lines wK2b_old wK2b_attrs wK2b_author 100 wK2b_facts) (to_lines wK2b_attrs wK2b_old) = true.
+Proof. repeat split; vm_compute; reflexivity. Qed.
 
-(* K2: equal-ts priors of different authors on the same range: merge re-sorts them by author name *)
-Lemma identity_tie_refuted :
-  exists old attrs author ts f,
-    wf_diff old old f = true /\ f_segs f = [(DEq, old)] /\ f_moves f = [] /\
-    forallb attr_ordered attrs = true /\
-    res_lines_eqb (update_lines old attrs author ts f) (to_lines attrs old) = false.
-Proof.
-  exists wK2_old, wK2_attrs, wK2_author, 100, wK2_facts.
-  repeat split; vm_compute; reflexivity.
-Qed.
-
-(* K3: a zero-length prior (deletion marker) does not survive an update of an unchanged text *)
-Lemma identity_marker_refuted :
-  exists old attrs author ts f,
-    wf_diff old old f = true /\ f_segs f = [(DEq, old)] /\ f_moves f = [] /\
-    forallb attr_ordered attrs = true /\
-    res_lines_eqb (update_lines old attrs author ts f) (to_lines attrs old) = false.
-Proof.
-  exists wK3_old, wK3_attrs, wK3_author, 100, wK3_facts.
-  repeat split; vm_compute; reflexivity.
-Qed.
+(* a zero-length prior (formerly class C16-K3) survives an identical text and moves along with an
+   unchanged segment *)
+Lemma regression_marker :
+  update wK3_attrs wK3_author 100 wK3_facts = Ok wK3_attrs /\
+  res_lines_eqb (update_lines wK3_old wK3_attrs wK3_author 100 wK3_facts) (to_lines wK3_attrs wK3_old) = true /\
+  update wK3b_attrs wK3b_author 100 wK3b_facts = Ok wK3b_out /\
+  In (mkAttr 8 8 [97; 105; 95; 50] 9) wK3b_out.
+Proof. repeat split; try (vm_compute; reflexivity). vm_compute. tauto. Qed.
 
 (* the round trip without its side condition: overlapping line attributions, or a range that ends
    beyond the last line (dropped entirely by line_attributions_to_attributions) *)
@@ -1754,63 +1677,733 @@ Lemma contracts_nonvacuous :
 Proof. repeat split; try (vm_compute; reflexivity). vm_compute. congruence. Qed.
 
 (* ================================================================== identical text: normal forms are fixpoints *)
-Lemma str_cmp_antisym : forall a b, str_cmp b a = CompOpp (str_cmp a b).
-Proof.
-  induction a as [|x a IH]; intros [|y b]; cbn [str_cmp CompOpp]; auto.
-  rewrite (N.compare_antisym x y). destruct (x ?= y); cbn [CompOpp]; auto.
-Qed.
+Lemma le2_total x y : le2 x y = false -> le2 y x = true.
+Proof. unfold le2. lia. Qed.
 
-Lemma cmp4_antisym a b : cmp4 b a = CompOpp (cmp4 a b).
-Proof.
-  unfold cmp4.
-  rewrite (N.compare_antisym (a_start a) (a_start b)). destruct (a_start a ?= a_start b); cbn [CompOpp]; auto.
-  rewrite (N.compare_antisym (a_end a) (a_end b)). destruct (a_end a ?= a_end b); cbn [CompOpp]; auto.
-  rewrite (str_cmp_antisym (a_author a) (a_author b)). destruct (str_cmp (a_author a) (a_author b)); cbn [CompOpp]; auto.
-  apply N.compare_antisym.
-Qed.
-
-Lemma le4_total x y : le4 x y = false -> le4 y x = true.
-Proof. unfold le4. rewrite (cmp4_antisym x y). destruct (cmp4 x y); cbn [CompOpp]; congruence. Qed.
-
-Lemma insert_adj x : forall l, adj le4 l -> adj le4 (insert_by le4 x l).
+Lemma insert_adj x : forall l, adj le2 l -> adj le2 (insert_by le2 x l).
 Proof.
   induction l as [|y t IH]; intros H; cbn [insert_by]; [exact I|].
-  destruct (le4 x y) eqn:E.
+  destruct (le2 x y) eqn:E.
   - cbn [adj]. split; auto.
-  - pose proof (le4_total x y E) as Hyx. destruct t as [|z t'].
+  - pose proof (le2_total x y E) as Hyx. destruct t as [|z t'].
     + cbn [insert_by adj]. auto.
     + cbn [adj] in H. destruct H as [H1 H2]. specialize (IH H2). cbn [insert_by] in *.
-      destruct (le4 x z); cbn [adj] in *; auto.
+      destruct (le2 x z); cbn [adj] in *; auto.
 Qed.
 
-Lemma sort4_adj l : adj le4 (sort4 l).
-Proof. unfold sort4. induction l as [|x t IH]; cbn [sort_by]; [exact I|]. apply insert_adj. exact IH. Qed.
+Lemma sort2_adj l : adj le2 (sort2 l).
+Proof. unfold sort2. induction l as [|x t IH]; cbn [sort_by]; [exact I|]. apply insert_adj. exact IH. Qed.
 
-Lemma sort4_idem l : sort4 (sort4 l) = sort4 l.
-Proof. apply (sort_by_id le4). apply sort4_adj. Qed.
+Lemma sort2_idem l : sort2 (sort2 l) = sort2 l.
+Proof. apply (sort_by_id le2). apply sort2_adj. Qed.
 
-Lemma eq_step_id len : forall l,
-  Forall (fun a => a_start a < a_end a /\ a_end a <= len) l -> eq_step l 0 0 len = l.
+(* non-empty ranges inside the text, or zero-length markers before its end *)
+Definition in_text (len : N) (a : attr) : Prop :=
+  (a_start a < a_end a /\ a_end a <= len) \/ (a_start a = a_end a /\ a_start a < len).
+
+Lemma eq_step_id len : forall l, Forall (in_text len) l -> eq_step l 0 0 len = l.
 Proof.
   induction l as [|a t IH]; intros H; [reflexivity|]. inversion H as [|? ? Ha Ht]; subst.
   unfold eq_step in *. cbn [flat_map]. rewrite (IH Ht). unfold inter.
-  replace (N.max (a_start a) 0) with (a_start a) by lia.
-  replace (N.min (a_end a) (0 + len)) with (a_end a) by lia.
-  replace (a_start a <? a_end a) with true by lia. cbn [app]. f_equal.
-  destruct a as [s e u t0]. cbn [a_start a_end a_author a_ts] in *. f_equal; lia.
+  destruct a as [s e u t0]. cbn [a_start a_end a_author a_ts] in *.
+  destruct Ha as [[A B]|[A B]]; cbn [a_start a_end] in *.
+  - replace (N.max s 0 <? N.min e (0 + len)) with true by lia. cbn [app]. f_equal. f_equal; lia.
+  - replace (N.max s 0 <? N.min e (0 + len)) with false by lia.
+    replace ((s =? e) && (0 <=? s) && (s <? 0 + len)) with true by lia. cbn [app]. f_equal. f_equal; lia.
 Qed.
 
-(* a list in merge-normal form whose ranges are non-empty and inside the text is returned unchanged
-   by an update with the identical text (facts: the single Equal segment) *)
+(* a list in merge-normal form whose entries lie in the text is returned unchanged by an update
+   with the identical text (facts: the single Equal segment) *)
 Theorem identity_fixpoint : forall old attrs author ts,
-  merge attrs = attrs ->
-  Forall (fun a => a_start a < a_end a /\ a_end a <= blen old) attrs ->
+  merge attrs = attrs -> Forall (in_text (blen old)) attrs ->
   update attrs author ts (mkFacts [(DEq, old)] [] []) = Ok attrs.
 Proof.
   intros old attrs author ts Hm Hf. unfold update, transform.
   cbn [f_segs f_moves f_subst transform_go insertions].
   rewrite app_nil_r. rewrite eq_step_id.
-  - unfold merge. rewrite sort4_idem. exact (f_equal Ok Hm).
-  - apply Forall_forall. intros a Ha. unfold sort4 in Ha. rewrite sort_by_In in Ha.
+  - unfold merge. rewrite sort2_idem. exact (f_equal Ok Hm).
+  - apply Forall_forall. intros a Ha. unfold sort2 in Ha. rewrite sort_by_In in Ha.
     rewrite Forall_forall in Hf. auto.
+Qed.
+
+(* ================================================================== deletion markers survive unchanged text *)
+Lemma eq_step_marker attrs op np len a :
+  In a attrs -> a_start a = a_end a -> op <= a_start a -> a_start a < op + len ->
+  In (mkAttr (np + (a_start a - op)) (np + (a_start a - op)) (a_author a) (a_ts a)) (eq_step attrs op np len).
+Proof.
+  intros Ha Hz H1 H2. unfold eq_step. apply in_flat_map. exists a. split; auto.
+  unfold inter. replace (N.max (a_start a) op <? N.min (a_end a) (op + len)) with false by lia.
+  replace ((a_start a =? a_end a) && (op <=? a_start a) && (a_start a <? op + len)) with true by lia.
+  left. reflexivity.
+Qed.
+
+Theorem equal_keeps_markers : forall attrs author ts f out pre d post a,
+  f_segs f = pre ++ (DEq, d) :: post ->
+  update attrs author ts f = Ok out ->
+  In a attrs -> a_start a = a_end a ->
+  blen (cat_old pre) <= a_start a -> a_start a < blen (cat_old pre) + blen d ->
+  In (mkAttr (blen (cat_new pre) + (a_start a - blen (cat_old pre)))
+             (blen (cat_new pre) + (a_start a - blen (cat_old pre))) (a_author a) (a_ts a)) out.
+Proof.
+  intros attrs author ts f out pre d post a Hsegs H Ha Hz H1 H2.
+  unfold update in H. destruct (transform f (sort2 attrs) author ts) as [l|] eqn:E; [|discriminate].
+  inversion H; subst out. apply merge_markers; [|reflexivity].
+  unfold transform in E. rewrite Hsegs in E at 1. apply transform_go_app in E.
+  destruct E as [l1 [l2 [pw' [last' [E1 [E2 E3]]]]]].
+  replace (0 + blen (cat_old pre)) with (blen (cat_old pre)) in E2 by lia.
+  replace (0 + blen (cat_new pre)) with (blen (cat_new pre)) in E2 by lia.
+  cbn [transform_go] in E2.
+  match type of E2 with match ?X with _ => _ end = _ => destruct X as [r|] eqn:E4; [|discriminate] end.
+  inversion E2; subst l2. subst l. apply in_or_app. right. apply in_or_app. left.
+  apply eq_step_marker; auto. unfold sort2. rewrite sort_by_In. exact Ha.
+Qed.
+
+(* ================================================================== merge keeps the line attributions *)
+(* ---- decoding a concatenation ---- *)
+Lemma decode_app l1 : decode l1 <> None -> forall l2,
+  decode (l1 ++ l2) = match decode l1, decode l2 with Some a, Some b => Some (a ++ b) | _, _ => None end.
+Proof.
+  intros H. pattern l1. apply decode_ind'; auto; clear l1 H.
+  - intros l2. cbn [app decode]. destruct (decode l2); reflexivity.
+  - intros b0 r c _ _ Hd Hr IH l2. cbn [app]. rewrite !Hd, IH.
+    destruct (decode r); [|congruence]. destruct (decode l2); reflexivity.
+  - intros b0 b1 r c _ _ _ Hd Hr IH l2. cbn [app]. rewrite !Hd, IH.
+    destruct (decode r); [|congruence]. destruct (decode l2); reflexivity.
+  - intros b0 b1 b2 r c _ _ _ _ Hd Hr IH l2. cbn [app]. rewrite !Hd, IH.
+    destruct (decode r); [|congruence]. destruct (decode l2); reflexivity.
+  - intros b0 b1 b2 b3 r c _ _ _ _ _ Hd Hr IH l2. cbn [app]. rewrite !Hd, IH.
+    destruct (decode r); [|congruence]. destruct (decode l2); reflexivity.
+Qed.
+
+Lemma skipn_add {A} : forall b a (l : list A), skipn a (skipn b l) = skipn (b + a) l.
+Proof.
+  induction b as [|b IH]; intros a l; [reflexivity|]. destruct l as [|x t]; cbn [skipn plus].
+  - destruct a; reflexivity.
+  - apply IH.
+Qed.
+
+Lemma firstn_add {A} : forall a b (l : list A), firstn (a + b) l = firstn a l ++ firstn b (skipn a l).
+Proof.
+  induction a as [|a IH]; intros b l; [reflexivity|]. destruct l as [|x t]; cbn [firstn skipn plus app].
+  - destruct b; reflexivity.
+  - f_equal. apply IH.
+Qed.
+
+Lemma sub_split c x y z : x <= y -> y <= z ->
+  sub c x z = sub c x y ++ sub c y z.
+Proof.
+  intros H1 H2. unfold sub.
+  replace (N.to_nat (z - x)) with (N.to_nat (y - x) + N.to_nat (z - y))%nat by lia.
+  rewrite firstn_add. rewrite skipn_add. repeat f_equal. lia.
+Qed.
+
+(* ---- "some non-whitespace char between two boundaries" ---- *)
+Definition ex (c : list N) (x y : N) : bool :=
+  match decode (sub c x y) with Some cs => existsb (fun ch => negb (is_ws ch)) cs | None => false end.
+
+Lemma ex_split c x y z : decode c <> None ->
+  is_cb c x = true -> is_cb c y = true -> is_cb c z = true -> x <= y -> y <= z ->
+  ex c x z = ex c x y || ex c y z.
+Proof.
+  intros Hc Hx Hy Hz H1 H2. unfold ex. rewrite (sub_split c x y z H1 H2).
+  pose proof (valid_sub c x y Hc Hx Hy H1) as V1. pose proof (valid_sub c y z Hc Hy Hz H2) as V2.
+  rewrite (decode_app _ V1).
+  destruct (decode (sub c x y)); [|congruence]. destruct (decode (sub c y z)); [|congruence].
+  apply existsb_app.
+Qed.
+
+Lemma ex_mono c x x' z' z : decode c <> None ->
+  is_cb c x = true -> is_cb c x' = true -> is_cb c z' = true -> is_cb c z = true ->
+  x <= x' -> x' <= z' -> z' <= z -> ex c x' z' = true -> ex c x z = true.
+Proof.
+  intros Hc Hx Hx' Hz' Hz H1 H2 H3 H.
+  rewrite (ex_split c x x' z) by (auto; lia). rewrite (ex_split c x' z' z) by (auto; lia).
+  rewrite H. rewrite orb_true_r. reflexivity.
+Qed.
+
+(* ---- floor / ceil are the nearest boundaries ---- *)
+Lemma floor_loop_le s : forall n, floor_loop s n <= N.of_nat n.
+Proof.
+  induction n as [|n IH]; cbn [floor_loop]; [lia|]. destruct (is_cb s (N.of_nat (S n))); lia.
+Qed.
+
+Lemma floor_loop_max s : forall n b, is_cb s b = true -> b <= N.of_nat n -> b <= floor_loop s n.
+Proof.
+  induction n as [|n IH]; intros b Hb Hle; cbn [floor_loop]; [lia|].
+  destruct (is_cb s (N.of_nat (S n))) eqn:E; [exact Hle|].
+  apply IH; auto. destruct (N.eq_dec b (N.of_nat (S n))) as [Q|Q]; [subst; congruence|lia].
+Qed.
+
+Lemma ceil_loop_min s : forall fuel i, i + N.of_nat fuel = blen s ->
+  i <= ceil_loop s i fuel /\ forall b, is_cb s b = true -> i <= b -> ceil_loop s i fuel <= b.
+Proof.
+  induction fuel as [|f IH]; intros i H; cbn [ceil_loop]; [split; [lia|auto]|].
+  destruct ((i <? blen s) && negb (is_cb s i)) eqn:E; [|split; [lia|auto]].
+  destruct (IH (i + 1) ltac:(lia)) as [I1 I2]. split; [lia|].
+  intros b Hb Hle. apply I2; auto.
+  destruct (N.eq_dec b i) as [Q|Q]; [|lia]. subst b. rewrite Hb in E. cbn in E. rewrite andb_false_r in E. discriminate.
+Qed.
+
+(* v is the greatest boundary <= x / the least boundary >= y *)
+Definition is_fl (c : list N) (x v : N) : Prop :=
+  is_cb c v = true /\ v <= x /\ forall b, is_cb c b = true -> b <= x -> b <= v.
+Definition is_cl (c : list N) (y v : N) : Prop :=
+  is_cb c v = true /\ y <= v /\ forall b, is_cb c b = true -> y <= b -> v <= b.
+
+Definition sfs (c : list N) (ls x : N) : N := if is_cb c x then x else N.max (floor_cb c x) ls.
+Definition sfe (c : list N) (le y : N) : N := if is_cb c y then y else N.min (ceil_cb c y) le.
+
+Lemma sfs_fl c ls x : is_cb c ls = true -> ls <= x -> x <= blen c -> is_fl c x (sfs c ls x).
+Proof.
+  intros Hls H1 H2. unfold sfs. destruct (is_cb c x) eqn:E.
+  - split; [exact E|]. split; [lia|auto].
+  - unfold floor_cb. replace (N.min x (blen c)) with x by lia.
+    pose proof (floor_loop_le c (N.to_nat x)) as F1.
+    pose proof (floor_loop_max c (N.to_nat x) ls Hls ltac:(lia)) as F2.
+    replace (N.max (floor_loop c (N.to_nat x)) ls) with (floor_loop c (N.to_nat x)) by lia.
+    split; [apply floor_loop_cb|]. split; [lia|].
+    intros b Hb Hle. apply floor_loop_max; auto. lia.
+Qed.
+
+Lemma sfe_cl c le y : is_cb c le = true -> y <= le -> le <= blen c -> is_cl c y (sfe c le y).
+Proof.
+  intros Hle H1 H2. unfold sfe. destruct (is_cb c y) eqn:E.
+  - split; [exact E|]. split; [lia|auto].
+  - unfold ceil_cb. replace (N.min y (blen c)) with y by lia.
+    destruct (ceil_loop_min c (N.to_nat (blen c - y)) y ltac:(lia)) as [C1 C2].
+    destruct (ceil_loop_cb c (N.to_nat (blen c - y)) y ltac:(lia)) as [C3 C4].
+    pose proof (C2 le Hle H1) as C5.
+    replace (N.min (ceil_loop c y (N.to_nat (blen c - y))) le) with (ceil_loop c y (N.to_nat (blen c - y))) by lia.
+    split; [exact C3|]. split; [lia|]. intros b Hb Hyb. apply C2; auto.
+Qed.
+
+Lemma is_fl_mono c x1 x2 v1 v2 : is_fl c x1 v1 -> is_fl c x2 v2 -> x1 <= x2 -> v1 <= v2.
+Proof. intros [A1 [A2 A3]] [B1 [B2 B3]] H. apply B3; auto. lia. Qed.
+Lemma is_cl_mono c y1 y2 w1 w2 : is_cl c y1 w1 -> is_cl c y2 w2 -> y1 <= y2 -> w1 <= w2.
+Proof. intros [A1 [A2 A3]] [B1 [B2 B3]] H. apply A3; auto. lia. Qed.
+
+(* has_non_whitespace as a function of the part of the line the attribution covers *)
+Definition G (c : list N) (ls le x y : N) : bool :=
+  if x <? y then ex c (sfs c ls x) (sfe c le y) else false.
+
+Lemma has_nonws_val c ls le a : decode c <> None -> good_range c (ls, le) ->
+  has_nonws c ls le a = Ok (G c ls le (N.max ls (a_start a)) (N.min le (a_end a))).
+Proof.
+  intros Hc [H1 [H2 [H3 H4]]]. cbn [fst snd] in *. unfold has_nonws, G.
+  set (ss := N.max ls (a_start a)). set (se := N.min le (a_end a)).
+  destruct (ss <? se) eqn:E; [|reflexivity].
+  fold (sfs c ls ss). fold (sfe c le se).
+  destruct (sfs_fl c ls ss H3 ltac:(unfold ss; lia) ltac:(unfold ss, se in *; lia)) as [F1 [F2 F3]].
+  destruct (sfe_cl c le se H4 ltac:(unfold se; lia) H2) as [C1 [C2 C3]].
+  pose proof (C3 le H4 ltac:(unfold se; lia)) as C4.
+  replace (sfs c ls ss <? sfe c le se) with true by lia.
+  rewrite str_slice_some by (auto; lia).
+  pose proof (valid_sub c _ _ Hc F1 C1 ltac:(lia)) as Hv. unfold ex.
+  destruct (decode (sub c (sfs c ls ss) (sfe c le se))); [reflexivity|congruence].
+Qed.
+
+Lemma G_union c ls le x1 y1 x2 y2 : decode c <> None -> good_range c (ls, le) ->
+  ls <= x1 -> x1 <= x2 -> x2 <= y1 -> x1 < y1 -> x2 < y2 -> y1 <= le -> y2 <= le ->
+  G c ls le x1 (N.max y1 y2) = G c ls le x1 y1 || G c ls le x2 y2.
+Proof.
+  intros Hc [H1 [H2 [H3 H4]]] A1 A2 A3 A4 A5 A6 A7. cbn [fst snd] in *. unfold G.
+  replace (x1 <? N.max y1 y2) with true by lia. replace (x1 <? y1) with true by lia.
+  replace (x2 <? y2) with true by lia.
+  pose proof (sfs_fl c ls x1 H3 A1 ltac:(lia)) as F1. pose proof (sfs_fl c ls x2 H3 ltac:(lia) ltac:(lia)) as F2.
+  pose proof (sfe_cl c le y1 H4 A6 H2) as C1. pose proof (sfe_cl c le y2 H4 A7 H2) as C2.
+  pose proof (is_fl_mono _ _ _ _ _ F1 F2 A2) as M1.
+  set (v1 := sfs c ls x1) in *. set (v2 := sfs c ls x2) in *.
+  set (w1 := sfe c le y1) in *. set (w2 := sfe c le y2) in *.
+  destruct F1 as [F11 [F12 _]]. destruct F2 as [F21 [F22 _]].
+  destruct (N.le_ge_cases y2 y1) as [Q|Q].
+  - replace (N.max y1 y2) with y1 by lia. fold w1.
+    pose proof (is_cl_mono _ _ _ _ _ C2 C1 Q) as M2.
+    destruct C1 as [C11 [C12 _]]. destruct C2 as [C21 [C22 _]].
+    destruct (ex c v2 w2) eqn:E; [|rewrite orb_false_r; reflexivity].
+    rewrite (ex_mono c v1 v2 w2 w1) by (auto; lia). reflexivity.
+  - replace (N.max y1 y2) with y2 by lia. fold w2.
+    pose proof (is_cl_mono _ _ _ _ _ C1 C2 Q) as M2.
+    destruct C1 as [C11 [C12 _]]. destruct C2 as [C21 [C22 _]].
+    rewrite (ex_split c v1 w1 w2) by (auto; lia). rewrite (ex_split c v2 w1 w2) by (auto; lia).
+    destruct (ex c v2 w1) eqn:E.
+    + rewrite (ex_mono c v1 v2 w1 w1) by (auto; lia). reflexivity.
+    + cbn [orb]. destruct (ex c v1 w1); reflexivity.
+Qed.
+
+(* ---- the candidates of a line as a filter ---- *)
+Definition hnw (c : list N) (ls le : N) (a : attr) : bool :=
+  G c ls le (N.max ls (a_start a)) (N.min le (a_end a)).
+Definition is_cand (c : list N) (ls le : N) (empty : bool) (a : attr) : bool :=
+  overlaps a ls le && (hnw c ls le a || empty || (a_start a =? a_end a)).
+
+Lemma candidates_filter c ls le empty : decode c <> None -> good_range c (ls, le) ->
+  forall l, candidates c ls le empty l = Ok (filter (is_cand c ls le empty) l).
+Proof.
+  intros Hc Hg. induction l as [|a t IH]; [reflexivity|]. cbn [candidates filter]. unfold is_cand at 1.
+  destruct (overlaps a ls le); cbn [andb]; [|exact IH].
+  rewrite (has_nonws_val c ls le a Hc Hg). fold (hnw c ls le a). rewrite IH.
+  destruct (hnw c ls le a || empty || (a_start a =? a_end a)); reflexivity.
+Qed.
+
+(* ---- the dominant author as a fold over (author, ts) ---- *)
+Definition dsig (a : attr) : list N * N := (a_author a, a_ts a).
+Definition dstate := (option (list N * N) * option (list N * N) * option (list N * N))%type.
+Definition dstep (s : dstate) (x : list N * N) : dstate :=
+  let '(b, ai, hu) := s in
+  (match b with None => Some x | Some y => if snd y <? snd x then Some x else Some y end,
+   if is_human (fst x) then ai else Some x,
+   if is_human (fst x) then Some x else hu).
+Definition dfinish (s : dstate) : authorship :=
+  let '(b, ai, hu) := s in
+  match b with
+  | None => (human, None)
+  | Some y => (fst y, match ai, hu with
+                      | Some x, Some h => if snd x <? snd h then Some (fst x) else None
+                      | _, _ => None
+                      end)
+  end.
+
+Lemma dfold_latest : forall t b ai hu,
+  fst (fst (fold_left dstep (map dsig t) (Some (dsig b), ai, hu))) = Some (dsig (latest b t)).
+Proof.
+  induction t as [|a t IH]; intros b ai hu; [reflexivity|]. cbn [map fold_left latest dstep].
+  unfold dsig at 2 3. cbn [snd]. destruct (a_ts b <? a_ts a); apply IH.
+Qed.
+
+Lemma dfold_ai : forall l b ai hu,
+  snd (fst (fold_left dstep (map dsig l) (b, ai, hu))) =
+  fold_left (fun acc a => if negb (is_human (a_author a)) then Some (dsig a) else acc) l ai.
+Proof.
+  induction l as [|a t IH]; intros b ai hu; [reflexivity|]. cbn [map fold_left dstep].
+  rewrite IH. unfold dsig at 1 2. cbn [fst]. destruct (is_human (a_author a)); reflexivity.
+Qed.
+
+Lemma dfold_hu : forall l b ai hu,
+  snd (fold_left dstep (map dsig l) (b, ai, hu)) =
+  fold_left (fun acc a => if is_human (a_author a) then Some (dsig a) else acc) l hu.
+Proof.
+  induction l as [|a t IH]; intros b ai hu; [reflexivity|]. cbn [map fold_left dstep].
+  rewrite IH. unfold dsig at 1 2. cbn [fst]. destruct (is_human (a_author a)); reflexivity.
+Qed.
+
+Lemma last_such_sig (f : attr -> bool) : forall (l : list attr) (acc : option attr),
+  option_map dsig (fold_left (fun acc a => if f a then Some a else acc) l acc) =
+  fold_left (fun acc a => if f a then Some (dsig a) else acc) l (option_map dsig acc).
+Proof.
+  induction l as [|a t IH]; intros acc; [reflexivity|]. cbn [fold_left]. rewrite IH.
+  destruct (f a); reflexivity.
+Qed.
+
+Lemma dominant_fold l : dominant l = dfinish (fold_left dstep (map dsig l) (None, None, None)).
+Proof.
+  destruct l as [|a0 t]; [reflexivity|]. unfold dominant.
+  set (s := fold_left dstep (map dsig (a0 :: t)) (None, None, None)).
+  assert (H1 : fst (fst s) = Some (dsig (latest a0 t))).
+  { unfold s. cbn [map fold_left dstep]. apply dfold_latest. }
+  assert (H2 : snd (fst s) = option_map dsig (last_such (fun a => negb (is_human (a_author a))) (a0 :: t))).
+  { unfold s, last_such. rewrite dfold_ai. rewrite last_such_sig. reflexivity. }
+  assert (H3 : snd s = option_map dsig (last_such (fun a => is_human (a_author a)) (a0 :: t))).
+  { unfold s, last_such. rewrite dfold_hu. rewrite last_such_sig. reflexivity. }
+  destruct s as [[b ai] hu]. cbn [fst snd] in *. subst b ai hu. unfold dfinish.
+  destruct (last_such (fun a => negb (is_human (a_author a))) (a0 :: t)) as [x|];
+    destruct (last_such (fun a => is_human (a_author a)) (a0 :: t)) as [h|]; reflexivity.
+Qed.
+
+Lemma dstep_idem s x : dstep (dstep s x) x = dstep s x.
+Proof.
+  destruct s as [[b ai] hu]. unfold dstep. f_equal; [f_equal|].
+  - destruct b as [y|]; [|rewrite N.ltb_irrefl; reflexivity].
+    destruct (snd y <? snd x) eqn:E; [rewrite N.ltb_irrefl; reflexivity|rewrite E; reflexivity].
+  - destruct (is_human (fst x)); reflexivity.
+  - destruct (is_human (fst x)); reflexivity.
+Qed.
+
+(* two candidate lists with the same fold *)
+Definition dequiv (l l' : list attr) : Prop :=
+  forall s, fold_left dstep (map dsig l) s = fold_left dstep (map dsig l') s.
+
+Lemma dequiv_refl l : dequiv l l.
+Proof. intros s. reflexivity. Qed.
+Lemma dequiv_trans l1 l2 l3 : dequiv l1 l2 -> dequiv l2 l3 -> dequiv l1 l3.
+Proof. intros H1 H2 s. rewrite H1. apply H2. Qed.
+Lemma dequiv_app l1 l1' l2 l2' : dequiv l1 l1' -> dequiv l2 l2' -> dequiv (l1 ++ l2) (l1' ++ l2').
+Proof. intros H1 H2 s. rewrite !map_app, !fold_left_app. rewrite H1. apply H2. Qed.
+Lemma dequiv_cons a l l' : dequiv l l' -> dequiv (a :: l) (a :: l').
+Proof. intros H. apply (dequiv_app [a] [a] l l'); auto. apply dequiv_refl. Qed.
+Lemma dequiv_dup a b l : dsig a = dsig b -> dequiv (a :: b :: l) (b :: l).
+Proof. intros E s. cbn [map fold_left]. rewrite E. rewrite dstep_idem. reflexivity. Qed.
+Lemma dequiv_sig a b l : dsig a = dsig b -> dequiv (a :: l) (b :: l).
+Proof. intros E s. cbn [map fold_left]. rewrite E. reflexivity. Qed.
+Lemma dequiv_dominant l l' : dequiv l l' -> dominant l = dominant l'.
+Proof. intros H. rewrite !dominant_fold. rewrite H. reflexivity. Qed.
+
+(* ---- dedup and coalesce do not change the fold of any line's candidates ---- *)
+Lemma filter_cons_app {A} (p : A -> bool) a l : filter p (a :: l) = (if p a then [a] else []) ++ filter p l.
+Proof. cbn [filter]. destruct (p a); reflexivity. Qed.
+
+Lemma dedup_dequiv (p : attr -> bool) : forall l, dequiv (filter p (dedup l)) (filter p l).
+Proof.
+  induction l as [|a t IH]; [apply dequiv_refl|]. cbn [dedup].
+  destruct t as [|b t']; [apply dequiv_refl|].
+  destruct (attr_eqb a b) eqn:E.
+  - apply attr_eqb_eq in E. subst b. eapply dequiv_trans; [exact IH|].
+    cbn [filter]. destruct (p a); [|apply dequiv_refl].
+    intros s. symmetry. apply (dequiv_dup a a). reflexivity.
+  - rewrite (filter_cons_app p a (dedup (b :: t'))), (filter_cons_app p a (b :: t')).
+    apply dequiv_app; [apply dequiv_refl|exact IH].
+Qed.
+
+Section OneLineMerge.
+  Variable c : list N.
+  Variable ls le : N.
+  Variable empty : bool.
+  Hypothesis Hc : decode c <> None.
+  Hypothesis Hg : good_range c (ls, le).
+  Let p := is_cand c ls le empty.
+
+  (* the union of two overlapping or adjacent non-empty ranges is a candidate iff one of them is *)
+  Lemma cand_union a b :
+    a_start a < a_end a -> a_start b < a_end b -> a_start a <= a_start b -> a_start b <= a_end a ->
+    p (mkAttr (a_start a) (N.max (a_end a) (a_end b)) (a_author a) (a_ts a)) = p a || p b.
+  Proof.
+    intros A1 A2 A3 A4. pose proof Hg as [H1 [H2 [H3 H4]]]. cbn [fst snd] in *.
+    unfold p, is_cand, hnw, overlaps. cbn [a_start a_end].
+    replace (a_start a =? N.max (a_end a) (a_end b)) with false by lia.
+    replace (a_start a =? a_end a) with false by lia. replace (a_start b =? a_end b) with false by lia.
+    rewrite !orb_false_r.
+    set (Xa := N.max ls (a_start a)). set (Ya := N.min le (a_end a)).
+    set (Xb := N.max ls (a_start b)). set (Yb := N.min le (a_end b)).
+    replace (N.min le (N.max (a_end a) (a_end b))) with (N.max Ya Yb) by (unfold Ya, Yb; lia).
+    destruct (N.ltb_spec Xa Ya) as [Oa|Oa]; destruct (N.ltb_spec Xb Yb) as [Ob|Ob].
+    - (* both overlap the line *)
+      rewrite (G_union c ls le Xa Ya Xb Yb Hc Hg) by (unfold Xa, Ya, Xb, Yb in *; lia).
+      replace ((a_start a <? le) && (ls <? N.max (a_end a) (a_end b))) with true by (unfold Xa, Ya, Xb, Yb in *; lia).
+      replace ((a_start a <? le) && (ls <? a_end a)) with true by (unfold Xa, Ya, Xb, Yb in *; lia).
+      replace ((a_start b <? le) && (ls <? a_end b)) with true by (unfold Xa, Ya, Xb, Yb in *; lia).
+      cbn [andb]. destruct (G c ls le Xa Ya), (G c ls le Xb Yb), empty; reflexivity.
+    - (* only a *)
+      replace (N.max Ya Yb) with Ya by (unfold Xa, Ya, Xb, Yb in *; lia).
+      replace ((a_start a <? le) && (ls <? N.max (a_end a) (a_end b))) with true by (unfold Xa, Ya, Xb, Yb in *; lia).
+      replace ((a_start a <? le) && (ls <? a_end a)) with true by (unfold Xa, Ya, Xb, Yb in *; lia).
+      replace ((a_start b <? le) && (ls <? a_end b)) with false by (unfold Xa, Ya, Xb, Yb in *; lia).
+      cbn [andb]. rewrite orb_false_r. reflexivity.
+    - (* only b *)
+      replace (N.max Ya Yb) with Yb by (unfold Xa, Ya, Xb, Yb in *; lia).
+      replace Xa with Xb by (unfold Xa, Ya, Xb, Yb in *; lia).
+      replace ((a_start a <? le) && (ls <? N.max (a_end a) (a_end b))) with true by (unfold Xa, Ya, Xb, Yb in *; lia).
+      replace ((a_start a <? le) && (ls <? a_end a)) with false by (unfold Xa, Ya, Xb, Yb in *; lia).
+      replace ((a_start b <? le) && (ls <? a_end b)) with true by (unfold Xa, Ya, Xb, Yb in *; lia).
+      reflexivity.
+    - (* neither *)
+      replace ((a_start a <? le) && (ls <? N.max (a_end a) (a_end b))) with false by (unfold Xa, Ya, Xb, Yb in *; lia).
+      replace ((a_start a <? le) && (ls <? a_end a)) with false by (unfold Xa, Ya, Xb, Yb in *; lia).
+      replace ((a_start b <? le) && (ls <? a_end b)) with false by (unfold Xa, Ya, Xb, Yb in *; lia).
+      reflexivity.
+  Qed.
+
+  Lemma coalesce_dequiv : forall l last,
+    Forall (by_start last) l -> StronglySorted by_start l ->
+    dequiv (filter p (coalesce last l)) (filter p (last :: l)).
+  Proof.
+    induction l as [|a t IH]; intros last Hl Hs; cbn [coalesce]; [apply dequiv_refl|].
+    inversion Hl as [|? ? Hla Hlt]; subst. inversion Hs as [|? ? Hst Hat]; subst.
+    match goal with |- context [if ?cnd then _ else _] => destruct cnd eqn:E end.
+    - repeat (apply andb_true_iff in E; destruct E as [E ?]). apply str_eqb_eq in E.
+      unfold by_start in Hla.
+      set (u := mkAttr (a_start last) (N.max (a_end last) (a_end a)) (a_author last) (a_ts last)).
+      eapply dequiv_trans.
+      + apply IH; [|exact Hst]. eapply Forall_impl; [|exact Hlt]. unfold by_start. cbn. auto.
+      + assert (Pu : p u = p last || p a) by (apply cand_union; lia).
+        cbn [filter]. fold u. rewrite Pu.
+        assert (Sa : dsig a = dsig u) by (unfold dsig, u; cbn; f_equal; [congruence|lia]).
+        assert (Sl : dsig last = dsig u) by reflexivity.
+        destruct (p last), (p a); cbn [orb].
+        * intros s. symmetry. eapply eq_trans; [apply (dequiv_dup last a); congruence|].
+          apply (dequiv_sig a u). exact Sa.
+        * apply dequiv_sig. congruence.
+        * apply dequiv_sig. congruence.
+        * apply dequiv_refl.
+    - rewrite (filter_cons_app p last (coalesce a t)), (filter_cons_app p last (a :: t)).
+      apply dequiv_app; [apply dequiv_refl|]. apply IH; auto.
+  Qed.
+
+End OneLineMerge.
+
+(* ---- merge returns a list that is still sorted by (start, end) ---- *)
+Lemma dedup_head : forall t b, exists r, dedup (b :: t) = b :: r.
+Proof.
+  induction t as [|c t IH]; intros b; [exists []; reflexivity|]. cbn [dedup].
+  destruct (attr_eqb b c) eqn:E.
+  - apply attr_eqb_eq in E. subst c. apply IH.
+  - eexists. reflexivity.
+Qed.
+
+Lemma dedup_adj : forall l, adj le2 l -> adj le2 (dedup l).
+Proof.
+  induction l as [|a t IH]; intros H; [exact I|]. cbn [dedup].
+  destruct t as [|b t']; [exact I|]. cbn [adj] in H. destruct H as [H1 H2].
+  destruct (attr_eqb a b); [apply IH; exact H2|].
+  destruct (dedup_head t' b) as [r Hr]. specialize (IH H2). rewrite Hr in *. cbn [adj]. auto.
+Qed.
+
+Lemma coalesce_head : forall l last, exists h r,
+  coalesce last l = h :: r /\ a_start h = a_start last /\ a_end last <= a_end h.
+Proof.
+  induction l as [|a t IH]; intros last; cbn [coalesce].
+  - exists last, []. repeat split; lia.
+  - match goal with |- context [if ?cnd then _ else _] => destruct cnd end.
+    + destruct (IH (mkAttr (a_start last) (N.max (a_end last) (a_end a)) (a_author last) (a_ts last)))
+        as [h [r [E [S1 S2]]]]. exists h, r. cbn in S1, S2. repeat split; auto; lia.
+    + exists last, (coalesce a t). repeat split; lia.
+Qed.
+
+Lemma coalesce_adj : forall l last, adj le2 (last :: l) -> adj le2 (coalesce last l).
+Proof.
+  induction l as [|a t IH]; intros last H; cbn [coalesce]; [exact I|].
+  cbn [adj] in H. destruct H as [H1 H2].
+  match goal with |- context [if ?cnd then _ else _] => destruct cnd eqn:E end.
+  - apply IH. destruct t as [|b t']; [exact I|]. cbn [adj] in *. destruct H2 as [H2 H3].
+    split; auto. unfold le2 in *. cbn. lia.
+  - destruct (coalesce_head t a) as [h [r [Eh [S1 S2]]]]. specialize (IH a H2). rewrite Eh in *.
+    cbn [adj]. split; auto. unfold le2 in *. lia.
+Qed.
+
+Lemma merge_adj l : adj le2 (merge l).
+Proof.
+  unfold merge. pose proof (dedup_adj _ (sort2_adj l)) as H.
+  destruct (dedup (sort2 l)) as [|a t]; [exact I|]. apply coalesce_adj. exact H.
+Qed.
+
+Lemma merge_nonempty l : l <> [] -> merge l <> [].
+Proof.
+  intros H. unfold merge. destruct l as [|x t]; [congruence|].
+  assert (Hx : In x (dedup (sort2 (x :: t)))) by (rewrite dedup_In; unfold sort2; rewrite sort_by_In; left; reflexivity).
+  destruct (dedup (sort2 (x :: t))) as [|a r]; [destruct Hx|].
+  destruct (coalesce_head r a) as [h [r' [E _]]]. rewrite E. congruence.
+Qed.
+
+Lemma map_res_ext_in {A B} (f g : A -> res B) l :
+  (forall x, In x l -> f x = g x) -> map_res f l = map_res g l.
+Proof.
+  induction l as [|x t IH]; intros H; [reflexivity|]. cbn [map_res].
+  rewrite (H x (or_introl eq_refl)). rewrite IH; [reflexivity|]. intros y Hy. apply H. right. exact Hy.
+Qed.
+
+Lemma line_author_filter c l r : decode c <> None -> good_range c r ->
+  exists empty, line_author c l r = Ok (dominant (filter (is_cand c (fst r) (snd r) empty) l)) /\
+                forall l', line_author c l' r = Ok (dominant (filter (is_cand c (fst r) (snd r) empty) l')).
+Proof.
+  intros Hc Hg. destruct r as [ls le]. pose proof Hg as [G1 [G2 [G3 G4]]]. cbn [fst snd] in *.
+  pose proof (valid_sub c ls le Hc G3 G4 ltac:(lia)) as Hv.
+  destruct (decode (sub c ls le)) as [cs|] eqn:E; [|congruence].
+  exists (forallb is_ws cs).
+  assert (K : forall l0, line_author c l0 (ls, le) = Ok (dominant (filter (is_cand c ls le (forallb is_ws cs)) l0))).
+  { intros l0. unfold line_author. cbn [fst snd]. rewrite str_slice_some by (auto; lia). rewrite E.
+    rewrite (candidates_filter c ls le _ Hc Hg). reflexivity. }
+  split; [apply K|exact K].
+Qed.
+
+(* merge_attributions changes no line's (author, overrode) *)
+Theorem merge_keeps_lines : forall c l, valid_utf8 c = true -> to_lines (merge l) c = to_lines l c.
+Proof.
+  intros c l Hv. assert (Hc : decode c <> None).
+  { unfold valid_utf8 in Hv. destruct (decode c); congruence. }
+  destruct c as [|b c']; [reflexivity|]. destruct l as [|x0 l0]; [reflexivity|].
+  set (c := b :: c') in *. set (l := x0 :: l0) in *.
+  pose proof (merge_nonempty l ltac:(unfold l; congruence)) as Hne.
+  unfold to_lines. destruct (merge l) as [|m0 mr] eqn:Em; [congruence|].
+  change (match c with [] => Ok [] | _ :: _ => match map_res (line_author c (sort_by le2 (m0 :: mr))) (lines_of c) with
+          | Panic => Panic | Ok las => Ok (filter keep_line (merge_lines las)) end end =
+          match c with [] => Ok [] | _ :: _ => match map_res (line_author c (sort_by le2 l)) (lines_of c) with
+          | Panic => Panic | Ok las => Ok (filter keep_line (merge_lines las)) end end).
+  unfold c at 1 3. cbv beta iota. fold c.
+  rewrite <- Em. rewrite (sort_by_id le2 _ (merge_adj l)).
+  rewrite (map_res_ext_in (line_author c (merge l)) (line_author c (sort_by le2 l)) (lines_of c)); [reflexivity|].
+  intros r Hr. pose proof (lines_of_good c Hc r Hr) as Hg.
+  destruct (line_author_filter c (merge l) r Hc Hg) as [empty [E1 E2]]. rewrite E1, (E2 (sort_by le2 l)).
+  f_equal. apply dequiv_dominant. fold (sort2 l). unfold merge.
+  pose proof (dedup_sorted _ (sort2_sorted l)) as Hs.
+  eapply dequiv_trans; [|apply dedup_dequiv].
+  destruct (dedup (sort2 l)) as [|a t]; [apply dequiv_refl|].
+  inversion Hs; subst. apply (coalesce_dequiv c (fst r) (snd r) empty Hc); auto.
+Qed.
+
+(* C16_identity_keeps_lines for priors lying in the text *)
+Theorem identity_keeps_lines : forall old attrs author ts,
+  valid_utf8 old = true -> Forall (in_text (blen old)) attrs ->
+  update_lines old attrs author ts (mkFacts [(DEq, old)] [] []) = to_lines attrs old.
+Proof.
+  intros old attrs author ts Hv Hf. unfold update_lines, update, transform.
+  cbn [f_segs f_moves f_subst transform_go insertions]. rewrite app_nil_r. rewrite eq_step_id.
+  - rewrite merge_keeps_lines by exact Hv.
+    unfold to_lines. destruct old as [|b o']; [reflexivity|].
+    assert (Hs : sort_by le2 (sort2 attrs) = sort_by le2 attrs) by apply sort2_idem.
+    destruct attrs as [|a0 t0]; [reflexivity|].
+    destruct (sort2 (a0 :: t0)) as [|s0 sr] eqn:Es.
+    { exfalso. assert (In a0 (sort2 (a0 :: t0))) by (unfold sort2; rewrite sort_by_In; left; reflexivity).
+      rewrite Es in H. destruct H. }
+    rewrite Hs. reflexivity.
+  - apply Forall_forall. intros a Ha. unfold sort2 in Ha. rewrite sort_by_In in Ha.
+    rewrite Forall_forall in Hf. auto.
+Qed.
+
+(* ================================================================== identical text, arbitrary priors *)
+Definition le2R (a b : attr) : Prop := le2 a b = true.
+
+Lemma insert_ssorted x : forall l, StronglySorted le2R l -> StronglySorted le2R (insert_by le2 x l).
+Proof.
+  induction l as [|y t IH]; intros Hs; cbn [insert_by]; [constructor; constructor|].
+  inversion Hs as [|? ? Ht Hy]; subst. destruct (le2 x y) eqn:E.
+  - constructor; auto. constructor; [exact E|].
+    eapply Forall_impl; [|exact Hy]. unfold le2R, le2 in *. intros; lia.
+  - constructor; auto. apply Forall_forall. intros z Hz.
+    apply (Permutation_in _ (insert_by_perm le2 x t)) in Hz. destruct Hz as [Hz|Hz].
+    + subst z. apply le2_total. exact E.
+    + rewrite Forall_forall in Hy. apply Hy. exact Hz.
+Qed.
+
+Lemma sort2_ssorted l : StronglySorted le2R (sort2 l).
+Proof.
+  unfold sort2. induction l as [|x t IH]; cbn [sort_by]; [constructor|]. apply insert_ssorted. exact IH.
+Qed.
+
+Lemma ssorted_adj l : StronglySorted le2R l -> adj le2 l.
+Proof.
+  induction l as [|a t IH]; intros H; [exact I|]. inversion H as [|? ? Ht Ha]; subst.
+  destruct t as [|b t']; [exact I|]. cbn [adj]. split; [|apply IH; exact Ht].
+  inversion Ha; subst. assumption.
+Qed.
+
+(* what the Equal branch does to one prior when the whole text is one Equal segment *)
+Definition clipf (len : N) (a : attr) : list attr :=
+  match inter a 0 (0 + len) with
+  | Some (os, oe) => [mkAttr (0 + (os - 0)) (0 + (os - 0) + (oe - os)) (a_author a) (a_ts a)]
+  | None => if (a_start a =? a_end a) && (0 <=? a_start a) && (a_start a <? 0 + len)
+            then [mkAttr (0 + (a_start a - 0)) (0 + (a_start a - 0)) (a_author a) (a_ts a)] else []
+  end.
+
+Lemma eq_step_clipf len l : eq_step l 0 0 len = flat_map (clipf len) l.
+Proof. reflexivity. Qed.
+
+Lemma clipf_cases len a : a_start a <= a_end a ->
+  (a_start a < len /\ clipf len a = [mkAttr (a_start a) (N.min (a_end a) len) (a_author a) (a_ts a)]) \/
+  (len <= a_start a /\ clipf len a = []).
+Proof.
+  intros Ho. unfold clipf, inter.
+  destruct (N.ltb_spec (a_start a) len) as [L|L]; [left|right]; split; auto.
+  - destruct (N.max (a_start a) 0 <? N.min (a_end a) (0 + len)) eqn:E.
+    + f_equal. f_equal; lia.
+    + replace ((a_start a =? a_end a) && (0 <=? a_start a) && (a_start a <? 0 + len)) with true by lia.
+      f_equal. f_equal; lia.
+  - replace (N.max (a_start a) 0 <? N.min (a_end a) (0 + len)) with false by lia.
+    replace ((a_start a =? a_end a) && (0 <=? a_start a) && (a_start a <? 0 + len)) with false by lia.
+    reflexivity.
+Qed.
+
+Lemma clip_ssorted len : forall l, Forall ordered l -> StronglySorted le2R l ->
+  StronglySorted le2R (flat_map (clipf len) l).
+Proof.
+  induction l as [|a t IH]; intros Ho Hs; [constructor|].
+  inversion Ho as [|? ? Hoa Hot]; subst. inversion Hs as [|? ? Ht Ha]; subst. cbn [flat_map].
+  destruct (clipf_cases len a Hoa) as [[L E]|[L E]]; rewrite E; cbn [app]; [|apply IH; auto].
+  constructor; [apply IH; auto|]. apply Forall_forall. intros b' Hb'.
+  apply in_flat_map in Hb'. destruct Hb' as [b [Hb Hb']].
+  rewrite Forall_forall in Ha, Hot. pose proof (Ha b Hb) as Rab. pose proof (Hot b Hb) as Hob.
+  destruct (clipf_cases len b Hob) as [[Lb Eb]|[Lb Eb]]; rewrite Eb in Hb'; [|destruct Hb'].
+  destruct Hb' as [Hb'|[]]. subst b'. unfold le2R, le2 in *. cbn. lia.
+Qed.
+
+Lemma clip_dequiv c ls le empty : good_range c (ls, le) ->
+  forall l, Forall ordered l ->
+  dequiv (filter (is_cand c ls le empty) (flat_map (clipf (blen c)) l)) (filter (is_cand c ls le empty) l).
+Proof.
+  intros [G1 [G2 [G3 G4]]]. cbn [fst snd] in *.
+  induction l as [|a t IH]; intros Ho; [apply dequiv_refl|].
+  inversion Ho as [|? ? Hoa Hot]; subst. cbn [flat_map]. rewrite filter_app.
+  rewrite (filter_cons_app _ a t). apply dequiv_app; [|apply IH; exact Hot].
+  unfold ordered in Hoa.
+  destruct (clipf_cases (blen c) a Hoa) as [[L E]|[L E]]; rewrite E.
+  - cbn [filter].
+    assert (P : is_cand c ls le empty (mkAttr (a_start a) (N.min (a_end a) (blen c)) (a_author a) (a_ts a))
+                = is_cand c ls le empty a).
+    { unfold is_cand, overlaps, hnw. cbn [a_start a_end].
+      replace (N.min le (N.min (a_end a) (blen c))) with (N.min le (a_end a)) by lia.
+      replace (ls <? N.min (a_end a) (blen c)) with (ls <? a_end a) by lia.
+      replace (a_start a =? N.min (a_end a) (blen c)) with (a_start a =? a_end a) by lia. reflexivity. }
+    rewrite P. destruct (is_cand c ls le empty a); [|apply dequiv_refl].
+    apply dequiv_sig. reflexivity.
+  - cbn [filter]. replace (is_cand c ls le empty a) with false; [apply dequiv_refl|].
+    unfold is_cand, overlaps. replace (a_start a <? le) with false by lia. reflexivity.
+Qed.
+
+(* lines for which nobody is a candidate disappear *)
+Lemma merge_consec_human : forall l start n,
+  Forall (fun x => x = (human, @None (list N))) l ->
+  filter keep_line (merge_consec (human, None) start n l) = [].
+Proof.
+  induction l as [|x t IH]; intros start n H; cbn [merge_consec]; [reflexivity|].
+  inversion H; subst. change (auth_eqb (human, None) (human, None)) with true. cbv iota. apply IH. assumption.
+Qed.
+
+Lemma lines_all_human las : Forall (fun x => x = (human, @None (list N))) las ->
+  filter keep_line (merge_lines las) = [].
+Proof.
+  intros H. destruct las as [|x t]; [reflexivity|]. inversion H; subst. apply merge_consec_human. assumption.
+Qed.
+
+Lemma map_res_Forall {A B} (f : A -> res B) (P : B -> Prop) : forall l r,
+  (forall x, In x l -> forall y, f x = Ok y -> P y) -> map_res f l = Ok r -> Forall P r.
+Proof.
+  induction l as [|x t IH]; intros r H E; cbn [map_res] in E; [inversion E; constructor|].
+  destruct (f x) as [y|] eqn:Ey; [|discriminate]. destruct (map_res f t) as [r'|] eqn:Er; [|discriminate].
+  inversion E; subst. constructor; [eapply H; eauto; left; reflexivity|].
+  eapply IH; eauto. intros z Hz. apply H. right. exact Hz.
+Qed.
+
+(* C16_identity_keeps_lines: an identical text keeps every line attribution, for any priors with
+   start <= end (out of range, zero-length, overlapping, unsorted, duplicated) *)
+Theorem identity_keeps_lines_any : forall old attrs author ts,
+  valid_utf8 old = true -> Forall ordered attrs ->
+  update_lines old attrs author ts (mkFacts [(DEq, old)] [] []) = to_lines attrs old.
+Proof.
+  intros old attrs author ts Hv Ho. assert (Hc : decode old <> None).
+  { unfold valid_utf8 in Hv. destruct (decode old); congruence. }
+  unfold update_lines, update, transform.
+  cbn [f_segs f_moves f_subst transform_go insertions]. rewrite app_nil_r.
+  rewrite merge_keeps_lines by exact Hv. rewrite eq_step_clipf.
+  assert (HoS : Forall ordered (sort2 attrs)).
+  { apply Forall_forall. intros a Ha. unfold sort2 in Ha. rewrite sort_by_In in Ha.
+    rewrite Forall_forall in Ho. auto. }
+  set (S := sort2 attrs) in *. set (E := flat_map (clipf (blen old)) S).
+  destruct old as [|b o']; [reflexivity|]. set (c := b :: o') in *.
+  assert (HsE : sort_by le2 E = E).
+  { apply sort_by_id. apply ssorted_adj. apply clip_ssorted; auto. apply sort2_ssorted. }
+  (* both sides as a function of the per-line authors *)
+  assert (Hlines : map_res (line_author c E) (lines_of c) = map_res (line_author c S) (lines_of c)).
+  { apply map_res_ext_in. intros r Hr. pose proof (lines_of_good c Hc r Hr) as Hg.
+    destruct (line_author_filter c E r Hc Hg) as [empty [E1 E2]]. rewrite E1, (E2 S). f_equal.
+    apply dequiv_dominant. destruct r as [ls le]. apply clip_dequiv; auto. }
+  assert (HS : sort_by le2 attrs = S) by reflexivity.
+  assert (Hrhs : to_lines attrs c =
+                 match attrs with
+                 | [] => Ok []
+                 | _ => match map_res (line_author c S) (lines_of c) with
+                        | Panic => Panic | Ok las => Ok (filter keep_line (merge_lines las)) end
+                 end).
+  { unfold to_lines. fold c. destruct attrs; [reflexivity|]. rewrite HS. reflexivity. }
+  rewrite Hrhs. unfold to_lines. fold c.
+  destruct E as [|e0 er] eqn:EE.
+  - (* every prior fell off the text: no line has a candidate *)
+    destruct attrs as [|a0 t0]; [reflexivity|].
+    pose proof (to_lines_total c (a0 :: t0) Hv) as Ht. rewrite Hrhs in Ht.
+    destruct (map_res (line_author c S) (lines_of c)) as [las|] eqn:Em; [|congruence].
+    rewrite lines_all_human; [reflexivity|].
+    rewrite <- Hlines in Em. eapply map_res_Forall; [|exact Em].
+    intros r Hr y Hy. pose proof (lines_of_good c Hc r Hr) as Hg.
+    destruct (line_author_filter c [] r Hc Hg) as [empty [E1 _]]. rewrite E1 in Hy. cbn in Hy.
+    inversion Hy. reflexivity.
+  - rewrite <- EE. rewrite HsE. rewrite Hlines.
+    destruct attrs as [|a0 t0]; [|reflexivity].
+    (* attrs = [] is impossible here: E would be empty *)
+    exfalso. unfold S, sort2 in EE. cbn in EE. discriminate.
 Qed.
